@@ -36,12 +36,17 @@ def plan(tier, seed):
             for pi in range(pieces):
                 specs.append({"cls": cname, "stratum": stratum, "seed": seed, "tier": tier,
                               "start": pi * n // pieces, "count": (pi + 1) * n // pieces - pi * n // pieces})
-    # threads that construct their own objects: quick runs them for two of the classes (rotating with the seed) so that
-    # the check stays within one wave of 16 worker processes; thorough for all
-    own = CLASSES if tier != "quick" else [CLASSES[seed % len(CLASSES)], CLASSES[(seed + 3) % len(CLASSES)]]
-    for cname in own:
-        specs.append({"cls": cname, "stratum": "clean", "own_obj": True, "seed": seed, "tier": tier,
-                      "start": 10**6, "count": 1 if tier == "quick" else 30})
+    # two directed shard kinds explored with the constructor-delay family as well: "threads" = every thread constructs
+    # its own object; "mt_off" = the objects were constructed while multithreading support was off. quick runs each
+    # for one class (rotating with the seed) so that the check stays within one wave of 16 workers; thorough for all
+    if tier == "quick":
+        plain = [c for c in CLASSES if not catalog.info(c).buffered]
+        own = [(CLASSES[seed % len(CLASSES)], "threads"), (plain[seed % len(plain)], "mt_off")]
+    else:
+        own = [(c, k) for c in CLASSES for k in ("threads", "mt_off")]
+    for cname, kind in own:
+        specs.append({"cls": cname, "stratum": "clean", "own_obj": kind, "seed": seed, "tier": tier,
+                      "start": 10**6, "count": 1 if tier == "quick" else 15})
     return specs
 
 
@@ -52,8 +57,19 @@ def make_prog(spec, i):
         # two threads that each construct their own object on the not yet opened file and write once (lock
         # registration races); explored with the constructor-delay schedule family as well
         parts, meta = concgen.writer_program(r, info.kind, spec["stratum"], nthreads=2, max_ops=1,
-                                             topo="own_obj_in_thread")
-        if i % 2 == 0:
+                                             topo="own_obj_in_thread" if spec["own_obj"] == "threads" else "two_obj")
+        if spec["own_obj"] == "mt_off":
+            # two objects created in a single-threaded set-up phase with multithreading support off, switched on
+            # before the threads start: what is set up lazily happens at the start of the first operations
+            parts["ctor_mt_off"] = True
+            meta = {"topology": "two_obj_ctor_mt_off"}
+            for ti, t in enumerate(parts["threads"]):
+                t[0] = ({"op": "setitem", "h": ti, "path": [], "args": [f"n{ti}", concgen.uval(ti, 0, r)]}
+                        if info.kind == "dict" else
+                        {"op": "append", "h": ti, "path": [], "args": [concgen.uval(ti, 0, r)]})
+        else:
+            parts.pop("ctor_mt_off", None)
+        if spec["own_obj"] == "threads" and i % 2 == 0:
             # every other program: plain insertions whose loss cannot go unnoticed
             for ti, t in enumerate(parts["threads"]):
                 t[1] = ({"op": "setitem", "h": ti, "path": [], "args": [f"n{ti}", concgen.uval(ti, 0, r)]}
